@@ -479,7 +479,8 @@ def c06():
         "props_file": "Props/C06.v",
         "theorems": ["C06_sched_independent", "C06_live_reads", "C06_initial_round_interleave",
                      "C06_merging_round_interleave", "C06_initial_writes_disjoint",
-                     "C06_merging_writes_disjoint", "C06_round_names_NoDup", "C06_nonvacuous"],
+                     "C06_merging_writes_disjoint", "C06_round_names_NoDup", "C06_nonvacuous",
+                     "C06_source_tie_batch_width", "C06_source_tie_file_labels"],
         "model_files": ["Model/Multiround.v", "Gen/GMr.v", "Proofs/GenTieMr.v"],
         "suites": [suite_mr.suite_sched, suite_mr.suite_mr_files],
         "search": suite_mr.search_mr("C06"),
